@@ -94,4 +94,593 @@ theorem samplePix_window (A A' : Aff) (H W h' w' oy ox y0 x0 : Int) (d : Int × 
     rintro ⟨a, b, c, e⟩
     exact hin ⟨by linarith, by linarith, by linarith, by linarith⟩
 
+/-! ### tilings -/
+
+theorem Chain.le : ∀ {t : List Span} {a b : Int}, Chain a t b → a ≤ b
+  | [], a, b, h => by simp [Chain] at h; omega
+  | s :: r, a, b, h => by
+    obtain ⟨h1, h2, h3⟩ := h
+    have := Chain.le h3
+    omega
+
+theorem Chain.get : ∀ {t : List Span} {a b : Int} {i : Nat} {s : Span},
+    Chain a t b → t[i]? = some s → a ≤ s.1 ∧ s.1 ≤ s.2 ∧ s.2 ≤ b
+  | [], _, _, _, _, _, h => by simp at h
+  | s0 :: r, a, b, 0, s, hc, h => by
+    obtain ⟨h1, h2, h3⟩ := hc
+    simp at h; subst h
+    have := Chain.le h3
+    omega
+  | s0 :: r, a, b, i + 1, s, hc, h => by
+    obtain ⟨h1, h2, h3⟩ := hc
+    simp at h
+    have := Chain.get h3 h
+    omega
+
+/-- tiles come in increasing order -/
+theorem Chain.mono : ∀ {t : List Span} {a b : Int} {i j : Nat} {s s' : Span},
+    Chain a t b → i ≤ j → t[i]? = some s → t[j]? = some s' → s.1 ≤ s'.1 ∧ s.2 ≤ s'.2
+  | [], _, _, _, _, _, _, _, _, h, _ => by simp at h
+  | s0 :: r, a, b, 0, 0, s, s', _, _, h, h' => by
+    simp at h h'; subst h; subst h'; omega
+  | s0 :: r, a, b, 0, j + 1, s, s', hc, _, h, h' => by
+    obtain ⟨h1, h2, h3⟩ := hc
+    simp at h h'; subst h
+    have := Chain.get h3 h'
+    omega
+  | s0 :: r, a, b, i + 1, 0, s, s', _, hij, _, _ => by omega
+  | s0 :: r, a, b, i + 1, j + 1, s, s', hc, hij, h, h' => by
+    obtain ⟨h1, h2, h3⟩ := hc
+    simp at h h'
+    exact Chain.mono h3 (by omega) h h'
+
+theorem locate_spec : ∀ {t : List Span} {p : Int} {i : Nat},
+    locate t p = some i → ∃ s, t[i]? = some s ∧ s.1 ≤ p ∧ p < s.2
+  | [], _, _, h => by simp [locate] at h
+  | s0 :: r, p, i, h => by
+    unfold locate at h
+    split at h
+    · next hc => simp at h; subst h; exact ⟨s0, by simp, hc.1, hc.2⟩
+    · cases hl : locate r p with
+      | none => simp [hl] at h
+      | some k =>
+        simp [hl] at h; subst h
+        obtain ⟨s, h1, h2⟩ := locate_spec hl
+        exact ⟨s, by simpa using h1, h2⟩
+
+theorem Chain.locate_some : ∀ {t : List Span} {a b p : Int},
+    Chain a t b → a ≤ p → p < b → ∃ i, locate t p = some i
+  | [], a, b, p, h, h1, h2 => by simp [Chain] at h; omega
+  | s0 :: r, a, b, p, h, h1, h2 => by
+    obtain ⟨e1, e2, e3⟩ := h
+    unfold locate
+    by_cases hc : s0.1 ≤ p ∧ p < s0.2
+    · exact ⟨0, by rw [if_pos hc]⟩
+    · rw [if_neg hc]
+      obtain ⟨i, hi⟩ := Chain.locate_some e3 (by omega) h2
+      exact ⟨i + 1, by simp [hi]⟩
+
+theorem chunksTilingFrom_chain : ∀ (l : List Nat) (off : Int),
+    Chain off (chunksTilingFrom off l) (off + ((l.sum : Nat) : Int))
+  | [], off => by simp [chunksTilingFrom, Chain]
+  | n :: r, off => by
+    simp only [chunksTilingFrom, Chain, List.sum_cons]
+    refine ⟨trivial, by omega, ?_⟩
+    have := chunksTilingFrom_chain r (off + n)
+    have e : off + (n : Int) + ((r.sum : Nat) : Int) = off + ((n + r.sum : Nat) : Int) := by
+      push_cast; ring
+    rwa [e] at this
+
+/-! ### `minMax`, `clipSpans`, `mapOpt` -/
+
+theorem minMax_spec : ∀ {l : List Nat} {lo hi : Nat}, minMax l = some (lo, hi) →
+    (∀ a ∈ l, lo ≤ a ∧ a ≤ hi) ∧ lo ∈ l ∧ hi ∈ l
+  | [], _, _, h => by simp [minMax] at h
+  | a :: r, lo, hi, h => by
+    unfold minMax at h
+    cases hr : minMax r with
+    | none =>
+      simp [hr] at h
+      obtain ⟨rfl, rfl⟩ := h
+      cases r with
+      | nil => simp
+      | cons b r' =>
+        exfalso
+        unfold minMax at hr
+        cases h2 : minMax r' <;> simp [h2] at hr
+    | some q =>
+      obtain ⟨lo', hi'⟩ := q
+      simp [hr] at h
+      obtain ⟨rfl, rfl⟩ := h
+      obtain ⟨h1, h2, h3⟩ := minMax_spec hr
+      refine ⟨?_, ?_, ?_⟩
+      · intro x hx
+        simp at hx
+        rcases hx with rfl | hx
+        · omega
+        · have := h1 x hx; omega
+      · simp only [List.mem_cons]
+        by_cases hc : a ≤ lo'
+        · left; omega
+        · right; have : min a lo' = lo' := by omega
+          rw [this]; exact h2
+      · simp only [List.mem_cons]
+        by_cases hc : hi' ≤ a
+        · left; omega
+        · right; have : max a hi' = hi' := by omega
+          rw [this]; exact h3
+
+theorem minMax_isSome : ∀ {l : List Nat}, l ≠ [] → ∃ lo hi, minMax l = some (lo, hi)
+  | [], h => absurd rfl h
+  | a :: r, _ => by
+    unfold minMax
+    cases minMax r with
+    | none => exact ⟨a, a, rfl⟩
+    | some q => exact ⟨min a q.1, max a q.2, rfl⟩
+
+theorem clipSpans_spec {t : List Span} {lo hi : Nat} {a b : Span}
+    (hlo : t[lo]? = some a) (hhi : t[hi]? = some b) :
+    ∃ cropped, clipSpans t lo hi = some ((a.1, b.2), cropped) ∧
+      ∀ i, lo ≤ i → i ≤ hi →
+        cropped[i - lo]? = (t[i]?).map fun s => (s.1 - a.1, s.2 - a.1) := by
+  refine ⟨((t.drop lo).take (hi + 1 - lo)).map fun s => (s.1 - a.1, s.2 - a.1), ?_, ?_⟩
+  · simp [clipSpans, hlo, hhi]
+  · intro i h1 h2
+    rw [List.getElem?_map, List.getElem?_take, if_pos (by omega), List.getElem?_drop]
+    congr 2
+    omega
+
+theorem mapOpt_cons_some {α β} {f : α → Option β} {a : α} {r : List α} {bs : List β}
+    (h : mapOpt f (a :: r) = some bs) :
+    ∃ b bs', f a = some b ∧ mapOpt f r = some bs' ∧ bs = b :: bs' := by
+  unfold mapOpt at h
+  cases hf : f a with
+  | none => simp [hf] at h
+  | some b =>
+    cases hr : mapOpt f r with
+    | none => simp [hf, hr] at h
+    | some bs' => simp [hf, hr] at h; exact ⟨b, bs', rfl, rfl, h.symm⟩
+
+theorem mapOpt_isSome {α β} {f : α → Option β} : ∀ {l : List α},
+    (∀ a ∈ l, ∃ b, f a = some b) → ∃ bs, mapOpt f l = some bs
+  | [], _ => ⟨[], rfl⟩
+  | a :: r, h => by
+    obtain ⟨b, hb⟩ := h a (by simp)
+    obtain ⟨bs, hbs⟩ := mapOpt_isSome (l := r) (fun x hx => h x (by simp [hx]))
+    exact ⟨b :: bs, by simp [mapOpt, hb, hbs]⟩
+
+theorem mapOpt_congr {α β} {f g : α → Option β} : ∀ {l : List α} {bs : List β},
+    mapOpt f l = some bs → (∀ a ∈ l, ∀ b, f a = some b → g a = some b) → mapOpt g l = some bs
+  | [], bs, h, _ => by simpa [mapOpt] using h
+  | a :: r, bs, h, hfg => by
+    obtain ⟨b, bs', h1, h2, rfl⟩ := mapOpt_cons_some h
+    have := mapOpt_congr h2 (fun x hx => hfg x (by simp [hx]))
+    simp [mapOpt, hfg a (by simp) b h1, this]
+
+/-! ### `BlockAssembler.extract`: assemble = window of the mosaic on the pasted tiles -/
+
+theorem srcBlock_some {src : Img} {sy sx : List Span} {idx : TIdx} {b : Img}
+    (h : srcBlock src sy sx idx = some b) :
+    ∃ ys xs, sy[idx.1]? = some ys ∧ sx[idx.2]? = some xs ∧ b = window src ys xs := by
+  unfold srcBlock at h
+  cases hy : sy[idx.1]? with
+  | none => simp [hy] at h
+  | some ys =>
+    cases hx : sx[idx.2]? with
+    | none => simp [hy, hx] at h
+    | some xs =>
+      simp [hy, hx] at h
+      exact ⟨ys, xs, rfl, rfl, h.symm⟩
+
+/-- The blocks of the selected tiles pasted into the clipped window (offset `(oy, ox)`, tile
+indices re-based by `(y1, x1)`): on every pixel covered by a selected tile the result is the
+source pixel, elsewhere it is the initial content. -/
+theorem assemble_spec (src : Img) (sy sx cy cx : List Span) (y1 x1 : Nat) (oy ox : Int) :
+    ∀ (sel : List TIdx) (blocks : List Img) (acc : Img),
+      mapOpt (srcBlock src sy sx) sel = some blocks →
+      (∀ idx ∈ sel, y1 ≤ idx.1 ∧ x1 ≤ idx.2 ∧
+          cy[idx.1 - y1]? = (sy[idx.1]?).map (fun s => (s.1 - oy, s.2 - oy)) ∧
+          cx[idx.2 - x1]? = (sx[idx.2]?).map (fun s => (s.1 - ox, s.2 - ox))) →
+      ∃ asm, assemble cy cx ((sel.map fun i => (i.1 - y1, i.2 - x1)).zip blocks) acc = some asm ∧
+        (∀ p : Int × Int, (∃ idx ∈ sel, InTile sy idx.1 (p.1 + oy) ∧ InTile sx idx.2 (p.2 + ox)) →
+            asm p = src (p.1 + oy, p.2 + ox)) ∧
+        (∀ p : Int × Int, (¬ ∃ idx ∈ sel, InTile sy idx.1 (p.1 + oy) ∧ InTile sx idx.2 (p.2 + ox)) →
+            asm p = acc p)
+  | [], blocks, acc, hb, _ => by
+    simp [mapOpt] at hb
+    subst hb
+    exact ⟨acc, by simp [assemble], by simp, by simp⟩
+  | idx :: r, blocks, acc, hb, hsel => by
+    obtain ⟨b, bs', hb1, hb2, rfl⟩ := mapOpt_cons_some hb
+    obtain ⟨ys, xs, hys, hxs, rfl⟩ := srcBlock_some hb1
+    obtain ⟨_, _, hcy, hcx⟩ := hsel idx (by simp)
+    rw [hys] at hcy
+    rw [hxs] at hcx
+    simp only [Option.map_some] at hcy hcx
+    obtain ⟨asm, h1, ha, hn⟩ := assemble_spec src sy sx cy cx y1 x1 oy ox r bs'
+      (pasteBlock acc (ys.1 - oy, ys.2 - oy) (xs.1 - ox, xs.2 - ox) (window src ys xs)) hb2
+      (fun i hi => hsel i (by simp [hi]))
+    refine ⟨asm, ?_, ?_, ?_⟩
+    · simp only [List.map_cons, List.zip_cons_cons, assemble, hcy, hcx]
+      simpa using h1
+    · intro p hp
+      by_cases hr : ∃ i ∈ r, InTile sy i.1 (p.1 + oy) ∧ InTile sx i.2 (p.2 + ox)
+      · exact ha p hr
+      · rw [hn p hr]
+        obtain ⟨i, hi, hiy, hix⟩ := hp
+        simp only [List.mem_cons] at hi
+        rcases hi with rfl | hi
+        · obtain ⟨s1, e1, a1, a2⟩ := hiy
+          obtain ⟨s2, e2, a3, a4⟩ := hix
+          rw [hys] at e1; rw [hxs] at e2
+          simp only [Option.some.injEq] at e1 e2
+          subst e1; subst e2
+          unfold pasteBlock window
+          simp only []
+          rw [if_pos (by omega), if_pos (by omega)]
+          congr 2 <;> omega
+        · exact absurd ⟨i, hi, hiy, hix⟩ hr
+    · intro p hp
+      have hr : ¬ ∃ i ∈ r, InTile sy i.1 (p.1 + oy) ∧ InTile sx i.2 (p.2 + ox) := by
+        rintro ⟨i, hi, h⟩
+        exact hp ⟨i, by simp [hi], h⟩
+      rw [hn p hr]
+      unfold pasteBlock
+      simp only []
+      rw [if_neg]
+      rintro ⟨c1, c2, c3, c4⟩
+      exact hp ⟨idx, by simp, ⟨ys, hys, by omega, by omega⟩, ⟨xs, hxs, by omega, by omega⟩⟩
+
+/-! ### one output pixel as a function of the sampled source pixel -/
+
+/-- what `_rio_reproject` writes into a destination pixel, given the source pixel it samples -/
+def outPix (V : Variant) (G : Gdal) (k : DKind) (srcNd dstNd : Option Val) (src : Img)
+    (smp : Option (Int × Int)) : Option Val :=
+  (match smp with
+   | none => some (initVal (effNodata (encNodata V k dstNd) (encNodata V k srcNd)))
+   | some s =>
+     match encImg k src s with
+     | none => none
+     | some v =>
+       if encNodata V k srcNd = some v
+       then some (initVal (effNodata (encNodata V k dstNd) (encNodata V k srcNd)))
+       else some (G.emit (effNodata (encNodata V k dstNd) (encNodata V k srcNd)) v)).map (decVal k)
+
+theorem rioPlane_eq (V : Variant) (G : Gdal) (k : DKind) (src : Img) (sh sw : Int) (buf : Img)
+    (S D : Aff) (srcNd dstNd : Option Val) (d : Int × Int) (hb : (buf d).isSome) :
+    rioReprojectPlane V G k src sh sw buf S D srcNd dstNd d =
+      outPix V G k srcNd dstNd src (samplePix (S.inv * D) sh sw d) := by
+  unfold rioReprojectPlane gdalNearest outPix
+  cases hbd : buf d with
+  | none => simp [hbd] at hb
+  | some v =>
+    simp only [encImg, hbd, Option.map_some]
+    cases samplePix (S.inv * D) sh sw d with
+    | none => rfl
+    | some s =>
+      simp only []
+      cases src s with
+      | none => rfl
+      | some v => simp only [Option.map_some]
+
+theorem full_isSome (h w : Int) (v : Val) (p : Int × Int)
+    (hp : 0 ≤ p.1 ∧ p.1 < h ∧ 0 ≤ p.2 ∧ p.2 < w) : (full h w v p).isSome := by
+  simp [full, hp]
+
+/-- `_do_chunked_reproject` pixel by pixel: it succeeds, and every pixel of the chunk that
+samples nothing, or samples a source pixel lying in one of the listed source tiles, holds
+what `_rio_reproject` writes for that sampled pixel of the *whole* source. -/
+theorem doChunked_pixel (c : Cfg) (G : Gdal) (src : Img) (idx : TIdx) (blocks : List Img)
+    (hsy : Chain 0 c.sy c.srcH) (hsx : Chain 0 c.sx c.srcW) (hS : c.S.det ≠ 0)
+    (hvalid : DepsValid c) (hne : lookupDeps c.deps idx ≠ [])
+    (hblocks : mapOpt (srcBlock src c.sy c.sx) (lookupDeps c.deps idx) = some blocks)
+    (ty tx : Span) (hty : c.dy[idx.1]? = some ty) (htx : c.dx[idx.2]? = some tx) :
+    ∃ blk, doChunkedReproject c G idx blocks = some blk ∧
+      ∀ d' : Int × Int, 0 ≤ d'.1 → d'.1 < ty.2 - ty.1 → 0 ≤ d'.2 → d'.2 < tx.2 - tx.1 →
+        (match samplePix (c.S.inv * c.D) c.srcH c.srcW (d'.1 + ty.1, d'.2 + tx.1) with
+          | none => True
+          | some s => ∃ i ∈ lookupDeps c.deps idx, InTile c.sy i.1 s.1 ∧ InTile c.sx i.2 s.2) →
+        blk d' = outPix c.variant G c.kind c.srcNd
+          (chunkDstNodata c.variant c.kind c.srcNd c.dstNd) src
+          (samplePix (c.S.inv * c.D) c.srcH c.srcW (d'.1 + ty.1, d'.2 + tx.1)) := by
+  set sel := lookupDeps c.deps idx with hsel
+  have hney : sel.map (·.1) ≠ [] := by simpa using hne
+  have hnex : sel.map (·.2) ≠ [] := by simpa using hne
+  obtain ⟨y1, y2, hmy⟩ := minMax_isSome hney
+  obtain ⟨x1, x2, hmx⟩ := minMax_isSome hnex
+  obtain ⟨hby, hy1, hy2⟩ := minMax_spec hmy
+  obtain ⟨hbx, hx1, hx2⟩ := minMax_spec hmx
+  -- the extreme indices are valid tile indices
+  have valid_y : ∀ a ∈ sel.map (·.1), ∃ s, c.sy[a]? = some s := by
+    intro a ha
+    obtain ⟨i, hi, rfl⟩ := List.mem_map.1 ha
+    have := (hvalid idx i hi).1
+    exact ⟨c.sy[i.1], by simp [this]⟩
+  have valid_x : ∀ a ∈ sel.map (·.2), ∃ s, c.sx[a]? = some s := by
+    intro a ha
+    obtain ⟨i, hi, rfl⟩ := List.mem_map.1 ha
+    have := (hvalid idx i hi).2
+    exact ⟨c.sx[i.2], by simp [this]⟩
+  obtain ⟨ay, hay⟩ := valid_y y1 hy1
+  obtain ⟨by_, hby_⟩ := valid_y y2 hy2
+  obtain ⟨ax, hax⟩ := valid_x x1 hx1
+  obtain ⟨bx, hbx_⟩ := valid_x x2 hx2
+  obtain ⟨cy, hcy, hcyi⟩ := clipSpans_spec hay hby_
+  obtain ⟨cx, hcx, hcxi⟩ := clipSpans_spec hax hbx_
+  -- assemble
+  obtain ⟨asm, hasm, hcov, _⟩ := assemble_spec src c.sy c.sx cy cx y1 x1 ay.1 ax.1 sel blocks
+    (full (by_.2 - ay.1) (bx.2 - ax.1) (extractFill c.srcNd c.kind)) hblocks
+    (by
+      intro i hi
+      have h1 := hby i.1 (List.mem_map.2 ⟨i, hi, rfl⟩)
+      have h2 := hbx i.2 (List.mem_map.2 ⟨i, hi, rfl⟩)
+      exact ⟨h1.1, h2.1, hcyi i.1 h1.1 h1.2, hcxi i.2 h2.1 h2.2⟩)
+  refine ⟨_, by
+    unfold doChunkedReproject
+    simp only [← hsel, hmy, hmx, hcy, hcx, hty, htx, hasm, Option.bind_eq_bind, Option.bind_some,
+      Option.pure_def]
+    rfl, ?_⟩
+  intro d' hd1 hd2 hd3 hd4 hcover
+  -- window geometry
+  have gy1 := Chain.get hsy hay
+  have gy2 := Chain.get hsy hby_
+  have gx1 := Chain.get hsx hax
+  have gx2 := Chain.get hsx hbx_
+  rw [rioPlane_eq _ _ _ _ _ _ _ _ _ _ _ _ (full_isSome _ _ _ _ ⟨hd1, hd2, hd3, hd4⟩)]
+  have hA := pixMap_crop c.S c.D hS (ax.1 : Int) (ay.1 : Int) (tx.1 : Int) (ty.1 : Int)
+  rw [samplePix_window (c.S.inv * c.D) _ c.srcH c.srcW (by_.2 - ay.1) (bx.2 - ax.1) ay.1 ax.1 ty.1 tx.1 d'
+    hA ⟨by omega, by omega, by omega, by omega⟩]
+  cases hs : samplePix (c.S.inv * c.D) c.srcH c.srcW (d'.1 + ty.1, d'.2 + tx.1) with
+  | none => simp [outPix]
+  | some s =>
+    rw [hs] at hcover
+    obtain ⟨i, hi, ⟨s1, e1, a1, a2⟩, ⟨s2, e2, a3, a4⟩⟩ := hcover
+    have h1 := hby i.1 (List.mem_map.2 ⟨i, hi, rfl⟩)
+    have h2 := hbx i.2 (List.mem_map.2 ⟨i, hi, rfl⟩)
+    have m1 := Chain.mono hsy h1.1 hay e1
+    have m2 := Chain.mono hsy h1.2 e1 hby_
+    have m3 := Chain.mono hsx h2.1 hax e2
+    have m4 := Chain.mono hsx h2.2 e2 hbx_
+    simp only []
+    rw [if_pos (by omega)]
+    have := hcov (s.1 - ay.1, s.2 - ax.1) ⟨i, hi, ⟨s1, e1, by simp; omega, by simp; omega⟩,
+      ⟨s2, e2, by simp; omega, by simp; omega⟩⟩
+    simp only [Int.sub_add_cancel] at this
+    simp only [outPix, encImg, this]
+
+/-! ### nodata bookkeeping of the repaired code -/
+
+theorem chunkDstNodata_eq_rio (k : DKind) (sn dn : Option Val) (hnd : dn = none → sn = none) :
+    chunkDstNodata Variant.repaired k sn dn = rioNodataDefault k dn := by
+  cases dn with
+  | some v => cases sn <;> simp [chunkDstNodata, rioNodataDefault]
+  | none =>
+    rw [hnd rfl]
+    simp [chunkDstNodata, rioNodataDefault, Variant.repaired]
+
+/-- the value an unreached pixel of a *task* chunk holds is `resolve_fill_value` (F10 repaired,
+boolean nodata repaired) — for every nodata setting -/
+theorem chunk_fill_eq (k : DKind) (sn dn : Option Val) (hd : NodataOk k dn) (hs : NodataOk k sn) :
+    decVal k (initVal (effNodata
+      (encNodata Variant.repaired k (chunkDstNodata Variant.repaired k sn dn))
+      (encNodata Variant.repaired k sn))) = resolveFill dn sn k := by
+  cases k with
+  | float =>
+    cases dn <;> cases sn <;>
+      simp [chunkDstNodata, encNodata, effNodata, initVal, decVal, resolveFill, Variant.repaired]
+  | int =>
+    cases dn <;> cases sn <;>
+      simp [chunkDstNodata, encNodata, effNodata, initVal, decVal, resolveFill, Variant.repaired]
+  | bool =>
+    cases dn with
+    | some v =>
+      rcases hd rfl v rfl with rfl | rfl <;> cases sn <;>
+        simp [chunkDstNodata, encNodata, effNodata, initVal, decVal, resolveFill, Variant.repaired, encVal]
+    | none =>
+      cases sn with
+      | none =>
+        simp [chunkDstNodata, encNodata, effNodata, initVal, decVal, resolveFill, Variant.repaired]
+      | some v =>
+        rcases hs rfl v rfl with rfl | rfl <;>
+          simp [chunkDstNodata, encNodata, effNodata, initVal, decVal, resolveFill, Variant.repaired, encVal]
+
+/-! ### one pixel of the computed dask array -/
+
+theorem dask_pixel (c : Cfg) (G : Gdal) (src : Img)
+    (hsy : Chain 0 c.sy c.srcH) (hsx : Chain 0 c.sx c.srcW)
+    (hdy : Chain 0 c.dy c.dstH) (hdx : Chain 0 c.dx c.dstW) (hS : c.S.det ≠ 0)
+    (hvalid : DepsValid c) (d : Int × Int)
+    (hd : 0 ≤ d.1 ∧ d.1 < c.dstH ∧ 0 ≤ d.2 ∧ d.2 < c.dstW) :
+    ∃ iy ix, InTile c.dy iy d.1 ∧ InTile c.dx ix d.2 ∧
+      (lookupDeps c.deps (iy, ix) = [] →
+        daskResult c G src d = some (resolveFill c.dstNd c.srcNd c.kind)) ∧
+      (lookupDeps c.deps (iy, ix) ≠ [] →
+        (match samplePix (c.S.inv * c.D) c.srcH c.srcW d with
+          | none => True
+          | some s => ∃ i ∈ lookupDeps c.deps (iy, ix), InTile c.sy i.1 s.1 ∧ InTile c.sx i.2 s.2) →
+        daskResult c G src d = outPix c.variant G c.kind c.srcNd
+          (chunkDstNodata c.variant c.kind c.srcNd c.dstNd) src
+          (samplePix (c.S.inv * c.D) c.srcH c.srcW d)) := by
+  obtain ⟨h1, h2, h3, h4⟩ := hd
+  obtain ⟨iy, hiy⟩ := Chain.locate_some hdy h1 h2
+  obtain ⟨ix, hix⟩ := Chain.locate_some hdx h3 h4
+  obtain ⟨ty, hty, t1, t2⟩ := locate_spec hiy
+  obtain ⟨tx, htx, t3, t4⟩ := locate_spec hix
+  obtain ⟨blocks, hblocks⟩ := mapOpt_isSome (f := srcBlock src c.sy c.sx)
+    (l := lookupDeps c.deps (iy, ix)) (by
+      intro i hi
+      have := hvalid (iy, ix) i hi
+      exact ⟨window src c.sy[i.1] c.sx[i.2], by simp [srcBlock, this.1, this.2]⟩)
+  refine ⟨iy, ix, ⟨ty, hty, t1, t2⟩, ⟨tx, htx, t3, t4⟩, ?_, ?_⟩
+  · intro he
+    unfold daskResult
+    simp only [hiy, hix, hty, htx, Option.bind_eq_bind, Option.bind_some, dstBlock, dstTask, he,
+      List.isEmpty_nil, if_true, constBlock, Option.pure_def]
+    simp only [mapOpt, Option.bind_some, full]
+    rw [if_pos (by omega)]
+  · intro hne hcov
+    obtain ⟨blk, hblk, hpix⟩ := doChunked_pixel c G src (iy, ix) blocks hsy hsx hS hvalid hne hblocks
+      ty tx hty htx
+    have hne' : (lookupDeps c.deps (iy, ix)).isEmpty = false := by
+      cases h : lookupDeps c.deps (iy, ix) with
+      | nil => exact absurd h hne
+      | cons a r => rfl
+    unfold daskResult
+    simp only [hiy, hix, hty, htx, Option.bind_eq_bind, Option.bind_some, dstBlock, hblocks, dstTask, hne',
+      hblk]
+    have e : (d.1 - ty.1 + ty.1, d.2 - tx.1 + tx.1) = d := by
+      ext <;> simp
+    have := hpix (d.1 - ty.1, d.2 - tx.1) (by simp; omega) (by simp; omega) (by simp; omega) (by simp; omega)
+    simp only [e] at this
+    simpa using this hcov
+
+/-! ### execution of the task graph -/
+
+theorem lookup_mem {k : Key} {v : Img} : ∀ {st : Store}, st.lookup k = some v → (k, v) ∈ st
+  | [], h => by simp [List.lookup] at h
+  | (k', v') :: r, h => by
+    unfold List.lookup at h
+    split at h
+    · next heq =>
+      have : k = k' := by simpa using heq
+      simp at h
+      subst this; subst h
+      simp
+    · exact List.mem_cons_of_mem _ (lookup_mem h)
+
+theorem mapOpt_map {α β γ} (f : β → Option γ) (g : α → β) : ∀ (l : List α),
+    mapOpt f (l.map g) = mapOpt (fun a => f (g a)) l
+  | [] => rfl
+  | a :: r => by simp [mapOpt, mapOpt_map f g r]
+
+/-- store invariant: every stored value is the denotation of its key -/
+def StoreOk (c : Cfg) (G : Gdal) (src : Img) (st : Store) : Prop :=
+  ∀ k v, (k, v) ∈ st → denote c G src k = some v
+
+theorem runTask_ok (c : Cfg) (G : Gdal) (src : Img) {st st' : Store} {k : Key}
+    (hst : StoreOk c G src st) (h : runTask (graph c G src) st k = some st') :
+    ∃ v, st' = (k, v) :: st ∧ denote c G src k = some v := by
+  unfold runTask at h
+  cases k with
+  | src i =>
+    simp only [graph] at h
+    cases hb : srcBlock src c.sy c.sx i with
+    | none => simp [hb] at h
+    | some b =>
+      simp only [hb, Option.map_some, Option.bind_eq_bind, Option.bind_some, mapOpt, Option.pure_def,
+        Option.some.injEq] at h
+      exact ⟨b, h.symm, by simp [denote, hb]⟩
+  | dst i =>
+    simp only [graph] at h
+    split at h
+    · simp only [Option.bind_eq_bind, Option.bind_some, Option.pure_def] at h
+      rw [mapOpt_map] at h
+      cases ha : mapOpt (fun a => List.lookup (Key.src a) st) (lookupDeps c.deps i) with
+      | none => simp [ha] at h
+      | some args =>
+        simp only [ha, Option.bind_some] at h
+        cases hv : dstTask c G i args with
+        | none => simp [hv] at h
+        | some v =>
+          simp only [hv, Option.bind_some, Option.some.injEq] at h
+          refine ⟨v, h.symm, ?_⟩
+          have hargs : mapOpt (srcBlock src c.sy c.sx) (lookupDeps c.deps i) = some args :=
+            mapOpt_congr ha (fun j _ b hb => hst (Key.src j) b (lookup_mem hb))
+          simp [denote, dstBlock, hargs, hv]
+    · simp at h
+
+theorem runOrder_ok (c : Cfg) (G : Gdal) (src : Img) : ∀ (order : List Key) {st st' : Store},
+    StoreOk c G src st → runOrder (graph c G src) order st = some st' → StoreOk c G src st'
+  | [], st, st', hst, h => by
+    simp [runOrder] at h; subst h; exact hst
+  | k :: r, st, st', hst, h => by
+    unfold runOrder at h
+    cases h1 : runTask (graph c G src) st k with
+    | none => simp [h1] at h
+    | some st1 =>
+      simp only [h1, Option.bind_eq_bind, Option.bind_some] at h
+      obtain ⟨v, rfl, hv⟩ := runTask_ok c G src hst h1
+      refine runOrder_ok c G src r ?_ h
+      intro k' v' hm
+      simp only [List.mem_cons, Prod.mk.injEq] at hm
+      rcases hm with ⟨rfl, rfl⟩ | hm
+      · exact hv
+      · exact hst k' v' hm
+
+theorem lookup_cons_isSome {k k' : Key} {v : Img} {st : Store}
+    (h : k' = k ∨ ∃ v', st.lookup k' = some v') : ∃ v', List.lookup k' ((k, v) :: st) = some v' := by
+  unfold List.lookup
+  cases hb : k' == k with
+  | true => exact ⟨v, rfl⟩
+  | false =>
+    rcases h with rfl | h
+    · simp at hb
+    · exact h
+
+theorem runTask_ready (c : Cfg) (G : Gdal) (src : Img)
+    (hsy : Chain 0 c.sy c.srcH) (hsx : Chain 0 c.sx c.srcW) (hS : c.S.det ≠ 0)
+    (hvalid : DepsValid c) {st : Store} {done : List Key} {k : Key}
+    (hst : StoreOk c G src st) (hdone : ∀ k ∈ done, ∃ v, st.lookup k = some v)
+    (hr : Ready c done k) : ∃ st', runTask (graph c G src) st k = some st' := by
+  unfold runTask
+  cases k with
+  | src i =>
+    obtain ⟨h1, h2⟩ := hr
+    simp [graph, srcBlock, h1, h2, mapOpt]
+  | dst i =>
+    obtain ⟨h1, h2, h3⟩ := hr
+    simp only [graph, h1, h2, and_self, if_true, Option.bind_eq_bind, Option.bind_some, Option.pure_def]
+    rw [mapOpt_map]
+    obtain ⟨args, ha⟩ := mapOpt_isSome (f := fun a => List.lookup (Key.src a) st)
+      (l := lookupDeps c.deps i) (fun j hj => hdone _ (h3 j hj))
+    have hargs : mapOpt (srcBlock src c.sy c.sx) (lookupDeps c.deps i) = some args :=
+      mapOpt_congr ha (fun j _ b hb => hst (Key.src j) b (lookup_mem hb))
+    simp only [ha, Option.bind_some]
+    have : ∃ v, dstTask c G i args = some v := by
+      unfold dstTask
+      by_cases he : lookupDeps c.deps i = []
+      · simp [he, constBlock, h1, h2]
+      · have hne' : (lookupDeps c.deps i).isEmpty = false := by
+          cases h : lookupDeps c.deps i with
+          | nil => exact absurd h he
+          | cons a r => rfl
+        obtain ⟨blk, hblk, _⟩ := doChunked_pixel c G src i args hsy hsx hS hvalid he hargs
+          c.dy[i.1] c.dx[i.2] (by simp [h1]) (by simp [h2])
+        simp [hne', hblk]
+    obtain ⟨v, hv⟩ := this
+    simp [hv]
+
+theorem runOrder_valid (c : Cfg) (G : Gdal) (src : Img)
+    (hsy : Chain 0 c.sy c.srcH) (hsx : Chain 0 c.sx c.srcW) (hS : c.S.det ≠ 0)
+    (hvalid : DepsValid c) : ∀ (order done : List Key) (st : Store),
+    StoreOk c G src st → (∀ k ∈ done, ∃ v, st.lookup k = some v) → ValidOrder c done order →
+    ∃ st', runOrder (graph c G src) order st = some st' ∧
+      ∀ k, (k ∈ done ∨ k ∈ order) → ∃ v, st'.lookup k = some v
+  | [], done, st, _, hdone, _ => ⟨st, rfl, fun k hk => by
+      rcases hk with hk | hk
+      · exact hdone k hk
+      · simp at hk⟩
+  | k :: r, done, st, hst, hdone, hv => by
+    obtain ⟨hr, hv'⟩ := hv
+    obtain ⟨st1, h1⟩ := runTask_ready c G src hsy hsx hS hvalid hst hdone hr
+    obtain ⟨v, rfl, hden⟩ := runTask_ok c G src hst h1
+    have hst1 : StoreOk c G src ((k, v) :: st) := by
+      intro k' v' hm
+      simp only [List.mem_cons, Prod.mk.injEq] at hm
+      rcases hm with ⟨rfl, rfl⟩ | hm
+      · exact hden
+      · exact hst k' v' hm
+    have hdone1 : ∀ k' ∈ k :: done, ∃ v', List.lookup k' ((k, v) :: st) = some v' := by
+      intro k' hk'
+      simp only [List.mem_cons] at hk'
+      rcases hk' with rfl | hk'
+      · exact lookup_cons_isSome (Or.inl rfl)
+      · exact lookup_cons_isSome (Or.inr (hdone k' hk'))
+    obtain ⟨st', h2, h3⟩ := runOrder_valid c G src hsy hsx hS hvalid r (k :: done) _ hst1 hdone1 hv'
+    refine ⟨st', by simp [runOrder, h1, h2], ?_⟩
+    intro k' hk'
+    apply h3
+    simp only [List.mem_cons] at hk' ⊢
+    tauto
+
 end OdcGeo.C13
